@@ -10,12 +10,36 @@ OpenMDAO's internal COO format.
 from pprint import pformat
 
 import numpy as np
-from numpy import bincount, isscalar
+from numpy import isscalar
 from scipy.sparse import coo_matrix, csr_matrix, csc_matrix, issparse
 
 from openmdao.utils.indexer import idx_list_to_index_array
 
 # from openmdao.devtools.debug import DebugDict
+
+
+def bincount(x, weights, minlength=0):
+    """
+    Sum weights by bin like numpy.bincount, also for complex weights (complex step).
+
+    Parameters
+    ----------
+    x : ndarray
+        Nonnegative bin indices.
+    weights : ndarray
+        Weights, real or complex.
+    minlength : int
+        Minimum number of bins.
+
+    Returns
+    -------
+    ndarray
+        Summed weights per bin.
+    """
+    if np.iscomplexobj(weights):
+        return np.bincount(x, weights.real, minlength) + \
+            1j * np.bincount(x, weights.imag, minlength)
+    return np.bincount(x, weights, minlength)
 
 
 class Subjac(object):
